@@ -292,6 +292,8 @@ def judge(ck, calls, d, ctx):
             "clap_or_error": d.get("err", "")[-300:], "context": ctx}
     if "FLAGS2" not in d:
         cls = "C13-dash-value" if dash else "C13-clap-reject:" + first
+        if "Unknown codegen item kind" in d.get("err", "") and "--generate\t\t" in d.get("FLAGS1", "") + "\t":
+            cls = "C13-clap-reject:with_codegen_config"      # an empty codegen configuration prints `--generate ''` (however it became empty)
         ck.violation(cls, "flags printed for this configuration are rejected by the command-line parser", data)
         return
     if d.get("SAME_FLAGS") != "1":
